@@ -190,6 +190,64 @@ fn bls(report: &Report, cli: &Cli) {
     report.add_extra_count("bls_multisets", multisets.len() as u64);
 }
 
+/// Signer sets of every size around the point where the verifiers switch from a sequential
+/// to a parallel key summation (150 keys), and well beyond it: one message signed by n
+/// keys (plus a second small group on another message for the hybrid verifier). For each n:
+/// the honest aggregate verifies; the aggregate without the last / first / a middle signer,
+/// with one extra signature, and against a key list with one key replaced does not.
+fn bls_large_signer_sets(report: &Report, cli: &Cli) {
+    let sizes: Vec<usize> = if cli.tier == Tier::Quick { vec![1, 2, 149, 150, 151, 299, 300, 301] } else { vec![1, 2, 3, 17, 148, 149, 150, 151, 152, 200, 299, 300, 301, 449, 450, 451, 600, 1000] };
+    let max = *sizes.iter().max().unwrap();
+    let sks: Vec<agg::SecretKey<P>> = (0..max + 1).into_par_iter().map(|i| agg::SecretKey::<P>::generate(&mut rng(cli.seed, 5000 + i as u64))).collect();
+    let pks: Vec<agg::PublicKey<P>> = sks.par_iter().map(agg::PublicKey::from_secret).collect();
+    let m1: &[u8] = b"one message, many signers";
+    let m2: &[u8] = b"another message";
+    let sigs1: Vec<agg::Signature<P>> = sks.par_iter().map(|sk| sk.sign(m1)).collect();
+    let other_group: Vec<agg::PublicKey<P>> = pks[..3].to_vec();
+    let other_sig = sks[..3].iter().fold(agg::Signature::<P>::empty(), |acc, sk| acc.aggregate(sk.sign(m2)));
+    sizes.par_iter().for_each(|&n| {
+        let all: agg::Signature<P> = sigs1[..n].iter().fold(agg::Signature::<P>::empty(), |acc, s| acc.aggregate(*s));
+        let without = |skip: usize| sigs1[..n].iter().enumerate().filter(|(i, _)| *i != skip).fold(agg::Signature::<P>::empty(), |acc, (_, s)| acc.aggregate(*s));
+        let keys = &pks[..n];
+        let mut replaced_last = keys.to_vec();
+        *replaced_last.last_mut().unwrap() = pks[max];
+        let mut replaced_first = keys.to_vec();
+        replaced_first[0] = pks[max];
+        let mut candidates: Vec<(&str, agg::Signature<P>, Vec<agg::PublicKey<P>>, bool)> = vec![("honest aggregate", all, keys.to_vec(), true), ("one extra signature", all.aggregate(sigs1[max]), keys.to_vec(), false), ("last key replaced", all, replaced_last, false), ("first key replaced", all, replaced_first, false)];
+        if n >= 2 {
+            candidates.push(("last signer missing", without(n - 1), keys.to_vec(), false));
+            candidates.push(("first signer missing", without(0), keys.to_vec(), false));
+            candidates.push(("middle signer missing", without(n / 2), keys.to_vec(), false));
+            candidates.push(("one key fewer than signatures", all, keys[..n - 1].to_vec(), false));
+        }
+        for (what, sig, ks, want) in candidates {
+            case(report, json!({"bls_signer_set": {"signers": n, "case": what}}), || {
+                let got_t = agg::verify_aggregate_sig_trusted_keys::<P>(m1, &ks, sig);
+                report.trace(1);
+                if got_t != want {
+                    return fail(if want { "valid-aggregate-rejected" } else { "aggregate-verifies-for-other-multiset" }, json!({"got": got_t, "variant": "trusted_keys"}));
+                }
+                let got_h = agg::verify_aggregate_sig_hybrid::<P>(&[(m1, &ks[..])], sig);
+                report.trace(1);
+                if got_h != want {
+                    return fail(if want { "valid-aggregate-rejected" } else { "aggregate-verifies-for-other-multiset" }, json!({"got": got_h, "variant": "hybrid"}));
+                }
+                // together with a second group on another message, in either order
+                for first in [true, false] {
+                    let groups: Vec<(&[u8], &[agg::PublicKey<P>])> = if first { vec![(m1, &ks[..]), (m2, &other_group[..])] } else { vec![(m2, &other_group[..]), (m1, &ks[..])] };
+                    let got = agg::verify_aggregate_sig_hybrid::<P>(&groups, sig.aggregate(other_sig));
+                    report.trace(1);
+                    if got != want {
+                        return fail(if want { "valid-aggregate-rejected" } else { "aggregate-verifies-for-other-multiset" }, json!({"got": got, "variant": "hybrid, two groups", "large_group_first": first}));
+                    }
+                }
+                Ok(())
+            });
+        }
+    });
+    report.set_extra("bls_signer_set_sizes", json!(sizes));
+}
+
 fn vrf(report: &Report, cli: &Cli) {
     let kps: Vec<ecvrf::Keypair> = (0..3).map(|i| ecvrf::Keypair::generate(&mut rng(cli.seed, 300 + i))).collect();
     let msgs = messages();
@@ -372,6 +430,7 @@ fn ps(report: &Report, cli: &Cli) {
 pub fn run(cli: &Cli) -> ! {
     let report = Report::new(cli);
     bls(&report, cli);
+    bls_large_signer_sets(&report, cli);
     vrf(&report, cli);
     ps(&report, cli);
     let n = report.evaluations.load(std::sync::atomic::Ordering::Relaxed);
@@ -380,7 +439,7 @@ pub fn run(cli: &Cli) -> ! {
     report.nontrivial(n);
     report.sample(json!({"bls_aggregate": {"built_from": [[0, 0], [1, 0], [1, 2]], "verified_against": [[0, 0], [1, 0], [2, 2]]}}));
     report.sample(json!({"vrf_proof_flip": 17}));
-    report.set_technique("exhaustive enumeration of all (key, message, signature) tuples, all multisets of <=3/4 (key,message) pairs verified against every multiset of the same size under the three aggregate verifiers, all proof-of-possession cross combinations, complete single-bit-flip neighbourhoods of VRF proof/key/message and BLS signature/key, all PS message vectors of length <= 2 (3) over a boundary scalar alphabet");
+    report.set_technique("exhaustive enumeration of all (key, message, signature) tuples, all multisets of <=3/4 (key,message) pairs verified against every multiset of the same size under the three aggregate verifiers, signer sets of every size around and beyond the sequential/parallel summation threshold (149, 150, 151, 299, 300, 301, ...) with each single signer missing / added / replaced, all proof-of-possession cross combinations, complete single-bit-flip neighbourhoods of VRF proof/key/message and BLS signature/key, all PS message vectors of length <= 2 (3) over a boundary scalar alphabet");
     report.set_rule("a case is one (built, verified-against) pair or one perturbed object; the verdict must equal the truth predicate (equal multiset and documented preconditions); all cases count as non-trivial");
     report.assume("keys are 3 seeded key pairs per scheme; messages {empty, a, b, 1 kB}; unforgeability beyond the enumerated alterations is a computational assumption");
     report.finish(true, json!({"keys": 3, "messages": 4, "max_multiset": if cli.tier == Tier::Quick { 3 } else { 4 }}));
